@@ -38,9 +38,34 @@ fn two_updates(n1: usize, n2: usize) {
     crate::vcover!(k > n1);
     crate::vcover!(k == 0);
 }
-/// @verif anchor=ElitistArchive::update bound="updates with 1 then 1 individuals; k <= 5; all objective values"
-#[cfg_attr(kani, kani::proof)] #[cfg_attr(kani, kani::unwind(8))]
-pub fn c07_archive_1_1() { two_updates(1, 1) }
+/// two single-individual updates, expectations written out (cheap for CBMC: no multiset bookkeeping)
+/// @verif anchor=ElitistArchive::update bound="updates with 1 then 1 individuals; k <= 3; all objective values"
+#[cfg_attr(kani, kani::proof)] #[cfg_attr(kani, kani::unwind(6))]
+pub fn c07_archive_1_1() {
+    let (x, y) = (sym_individual(), sym_individual());
+    let k: usize = sym();
+    assume(k <= 3);
+    let mut a = ElitistArchive::<ScalarProblem>::new();
+    a.update(std::slice::from_ref(&x), k);
+    assert!(a.elitists().len() == if k >= 1 { 1 } else { 0 }, "after the first update the archive holds min(k, 1) individuals");
+    if k >= 1 { assert!(a.elitists()[0].solution() == x.solution() && a.elitists()[0].objective() == x.objective()); }
+    a.update(std::slice::from_ref(&y), k);
+    let e = a.elitists();
+    let (lo, hi) = if y.objective() < x.objective() { (&y, &x) } else { (&x, &y) };
+    if k == 0 { assert!(e.is_empty(), "capacity 0 holds nothing"); }
+    if k == 1 {
+        assert!(e.len() == 1, "capacity 1 holds one individual");
+        assert!(e[0].objective() == lo.objective(), "the archive does not hold the best individual it has been shown");
+    }
+    if k >= 2 {
+        assert!(e.len() == 2, "with room left, everything shown so far must be kept");
+        assert!(e[0].objective() == lo.objective() && e[1].objective() == hi.objective(), "archive is not the sorted k best");
+        assert!((e[0].solution() == lo.solution() && e[1].solution() == hi.solution()) || x.objective() == y.objective(),
+                "objective values must stay with their individuals");
+    }
+    crate::vcover!(k == 2);
+    std::mem::forget(a);
+}
 /// @verif anchor=ElitistArchive::update tier=thorough bound="updates with 1 then 2 individuals; k <= 5; all objective values"
 #[cfg_attr(kani, kani::proof)] #[cfg_attr(kani, kani::unwind(8))]
 pub fn c07_archive_1_2() { two_updates(1, 2) }
